@@ -212,7 +212,7 @@ def cases(draw, tier):
         from .c15 import plan
 
         inline_state = any(c["scope"][0] == "state" and c["attach"] != "conv" for c in spec["cbs"]) or any("name" in s_ for s_ in spec["states"])
-        spec["style"] = draw(plan(spec, draw(gen.add_bundle(spec)), inline_state))
+        spec["style"] = draw(plan(spec, draw(gen.add_bundle(spec)), inline_state, extend=True))
     if "late0" in provs:
         in_unless = {g for t in spec["trans"] for g in t["unless"]}
         for g in list(spec["guards"]):
